@@ -592,6 +592,9 @@ SPECS["C05"]["parts"].append(_preempt("pipeline-preempt", "TestVerifC05", ["zz_v
 SPECS["C18"]["parts"].append(_preempt("transports-preempt", "TestVerifC18", ["zz_verif_c18_test.go", "zz_verif_c14_test.go"],
                                       {"quick": {"PAUSE": 1, "DEPTH": 4, "FAULTS": 1}, "thorough": {"PAUSE": 1, "PAUSEHITS": 2, "DEPTH": 5, "FAULTS": 2}}))
 
+SPECS["C01"]["parts"].append(_preempt("pipeline-preempt", "TestVerifC05", ["zz_verif_c05_test.go"],
+                                      {"quick": {"PAUSE": 1, "DEPTH": 4, "FAULTS": 1, "CALLS": 2}, "thorough": {"PAUSE": 1, "PAUSEHITS": 2, "DEPTH": 6, "FAULTS": 2, "CALLS": 3}}))
+
 # --------------------------------------------------------------------------------------------
 # Properties not (yet) claimed. Kept current: every property without a SPECS entry must be here.
 NOT_APPLICABLE = {
